@@ -3,12 +3,12 @@
 
 Hand transcription (core Lean only) of
 
-* `ResultNamespacesStack` (src/xalanc/XSLT/ResultNamespacesStack.cpp): `addDeclaration` (49),
-  `pushContext` (88), `popContext` (101), `getNamespaceForPrefix`, `getPrefixForNamespace`,
-  `prefixIsPresentLocal`, with the lazily created frames (`m_createNewContextStack`);
-* `XalanQName::getNamespaceForPrefix / getPrefixForNamespace` over a namespace vector / stack
-  (src/xalanc/XPath/XalanQName.cpp:97-301): newest declaration first, innermost frame first, the
-  built-in answers for `xml` / `xmlns`, and **no shadowing test** in `getPrefixForNamespace`;
+* `XalanNamespacesStack` (src/xalanc/DOMSupport/XalanNamespacesStack.cpp — the type of
+  `XSLTEngineImpl::m_resultNamespacesStack`; `XSLT/ResultNamespacesStack.*` has the same design but is **not
+  used** by the library): `addDeclaration` (187), `pushContext` (220), `popContext` (233, entries are `reset()`
+  and re-used), `findEntry` (253: innermost created entry first, newest declaration first),
+  `getNamespaceForPrefix` (295: `xml`/`xmlns` answered first), `getPrefixForNamespace` (header; **no shadowing
+  test**), `prefixIsPresentLocal` (313), with the lazily created entries (`m_createNewContextStack`);
 * `AttributeListImpl::addAttribute` (replace the value of an attribute with the same *qname*, else append);
 * `XSLTEngineImpl::addResultAttribute` (1246-1352), `flushPending` (1414), `startElement` (1525),
   `endElement` (1576), `getUniqueNamespaceValue` (2975), `isPendingResultPrefix` (2702),
@@ -47,30 +47,40 @@ abbrev Frame := List NS
 def xmlURI : String := "http://www.w3.org/XML/1998/namespace"
 def xmlnsURI : String := "http://www.w3.org/2000/xmlns/"
 
-/-- `XalanQName::getNamespaceForPrefix(const NamespaceVectorType&, prefix)` -/
+/-- `XalanNamespacesStackEntry::getNamespaceForPrefix` (`findEntry` from `m_position` back to `begin()`) -/
 def Frame.nsForPrefix (f : Frame) (p : String) : Option String :=
-  if p = "xml" then some xmlURI
-  else if p = "xmlns" then some xmlnsURI
-  else (f.find? (fun n => n.pfx = p)).map (·.uri)
+  (f.find? (fun n => n.pfx = p)).map (·.uri)
 
-/-- `XalanQName::getPrefixForNamespace(const NamespaceVectorType&, uri)` -/
+/-- `XalanNamespacesStackEntry::getPrefixForNamespace` -/
 def Frame.prefixForNs (f : Frame) (u : String) : Option String :=
   (f.find? (fun n => n.uri = u)).map (·.pfx)
 
-/-- `ResultNamespacesStack`: `frames` = entries `1 … m_stackPosition` of `m_resultNamespaces`,
+/-- `XalanNamespacesStack`: `frames` = entries `1 … m_stackPosition` of `m_resultNamespaces` (each entry: its
+declarations `begin() … m_position`),
 innermost first (entry 0 is the always-empty dummy); `createNew` = `m_createNewContextStack`, back first. -/
 structure RNS where
   frames : List Frame := []
   createNew : List Bool := []
 deriving Repr, DecidableEq
 
+/-- `XalanNamespacesStack::getNamespaceForPrefix` (XalanNamespacesStack.cpp:295-309): the two built-in prefixes are
+answered before the stack is consulted -/
 def RNS.nsForPrefix (r : RNS) (p : String) : Option String :=
-  if r.frames.isEmpty then none            -- m_stackPosition == m_stackBegin
+  if p = "xml" then some xmlURI
+  else if p = "xmlns" then some xmlnsURI
+  else if r.frames.isEmpty then none       -- m_stackPosition == m_stackBegin
   else r.frames.findSome? (·.nsForPrefix p)
 
 def RNS.prefixForNs (r : RNS) (u : String) : Option String :=
   if r.frames.isEmpty then none
   else r.frames.findSome? (·.prefixForNs u)
+
+/-- `getPrefixForNamespace` after `C14-prefix-for-namespace-skips-shadowed.diff`: a declaration `p ↦ u` only
+counts when `p` still resolves to `u` from the top of the stack -/
+def RNS.prefixForNsChecked (r : RNS) (u : String) : Option String :=
+  if r.frames.isEmpty then none
+  else r.frames.findSome? (fun f =>
+    (f.find? (fun n => n.uri = u && r.nsForPrefix n.pfx == some u)).map (·.pfx))
 
 def RNS.addDeclaration (r : RNS) (p u : String) : RNS :=
   match r.createNew with
@@ -110,8 +120,23 @@ inductive Ev where
   | text
 deriving DecidableEq, Repr
 
+/-- Which of the proposed repairs (`proposed/C14-*.diff`) the modelled tree contains.  The value for the
+current working tree is regenerated on every run by `translate/c14_variant.py`
+(`XalanModel.Generated.C14_Variant.variant`); all-`false` is the tree as it was first analysed. -/
+structure Variant where
+  /-- `C14-attr-declare-own-prefix.diff`: declare unless the attribute's *own* prefix is bound to the namespace -/
+  ownPrefixDecl : Bool := false
+  /-- `C14-late-attribute-needs-pending-element.diff`: the namespace branch of xsl:attribute tests `isElementPending` -/
+  lateAttrCheck : Bool := false
+  /-- `C14-element-empty-namespace.diff`: xsl:element `namespace=""` drops the prefix -/
+  emptyNsStrips : Bool := false
+  /-- `C14-prefix-for-namespace-skips-shadowed.diff`: `getPrefixForNamespace` skips re-bound prefixes -/
+  shadowCheck : Bool := false
+deriving Repr, DecidableEq
+
 /-- the part of `XSLTEngineImpl` the property is about -/
 structure St where
+  v : Variant := {}
   ns : RNS := { frames := [], createNew := [true] }   -- after `startDocument` (pushContext at 1183)
   pendName : Option QN := none                        -- `none` = empty pending element name
   pendAtts : List Att := []
@@ -121,7 +146,8 @@ structure St where
 deriving Repr, DecidableEq
 
 def St.resultNs (s : St) (p : String) : Option String := s.ns.nsForPrefix p
-def St.resultPrefix (s : St) (u : String) : Option String := s.ns.prefixForNs u
+def St.resultPrefix (s : St) (u : String) : Option String :=
+  if s.v.shadowCheck then s.ns.prefixForNsChecked u else s.ns.prefixForNs u
 def St.isElementPending (s : St) : Bool := s.pendName.isSome
 
 def St.addDecl (s : St) (p u : String) : St := { s with ns := s.ns.addDeclaration p u }
@@ -223,6 +249,12 @@ def St.attrNoNsConflict (s : St) (name : QN) (u : String) : Bool :=
   | some r => decide (u ≠ r)
   | none => false
 
+/-- `ElemAttribute.cpp:353-357`: is an `xmlns:p` declaration needed for the prefix `p` the attribute is written with?
+Old code: only when the namespace is bound to *no* prefix; after `C14-attr-declare-own-prefix.diff`: unless `p`
+itself is bound to the namespace. -/
+def St.attrNeedDecl (s : St) (p u : String) : Bool :=
+  if s.v.ownPrefixDecl then decide (s.resultNs p ≠ some u) else (s.resultPrefix u).isNone
+
 /-- `ElemAttribute::startElement` + `endElement`.
 `name`: the evaluated name AVT (valid QName); `nsAvt`: the evaluated namespace AVT if the attribute is
 present; `ssNs`: `ElemAttribute::getNamespaceForPrefix(name.pfx)` (stylesheet side). -/
@@ -230,7 +262,8 @@ def St.elemAttribute (s : St) (name : QN) (nsAvt : Option String) (ssNs : Option
     (value : String) : St × ABranch :=
   match nsAvt with
   | some attrNameSpace =>
-    if attrNameSpace = "" then
+    if s.v.lateAttrCheck && !s.isElementPending then (s, .notPending)
+    else if attrNameSpace = "" then
       ((s.addResultAttribute ⟨"", name.loc⟩ value), .nsEmpty)
     else
       match s.attrReuse name attrNameSpace with
@@ -258,16 +291,14 @@ def St.elemAttribute (s : St) (name : QN) (nsAvt : Option String) (ssNs : Option
         | some u =>
           if u = "" then (s, .noNsUnbound)
           else if s.attrNoNsConflict name u then
-            match s.unique.2.resultPrefix u with
-            | none =>
+            if s.unique.2.attrNeedDecl s.unique.1 u then
               ((s.unique.2.addResultAttribute ⟨"xmlns", s.unique.1⟩ u).addResultAttribute ⟨s.unique.1, name.loc⟩ value,
                 .noNsConflictDecl)
-            | some _ => (s.unique.2.addResultAttribute ⟨s.unique.1, name.loc⟩ value, .noNsConflictNoDecl)
+            else (s.unique.2.addResultAttribute ⟨s.unique.1, name.loc⟩ value, .noNsConflictNoDecl)
           else
-            match s.resultPrefix u with
-            | none =>
+            if s.attrNeedDecl name.pfx u then
               ((s.addResultAttribute ⟨"xmlns", name.pfx⟩ u).addResultAttribute name value, .noNsDecl)
-            | some _ =>
+            else
               -- `.noNsBound`: the attribute's own prefix already means `u`; `.noNsPrefixUnbound`: only some *other*
               -- prefix does and nothing is declared for this one (known finding)
               (s.addResultAttribute name value,
@@ -296,6 +327,8 @@ deriving DecidableEq, Repr
 def St.elemElementStart (s : St) (name : QN) (nsAvt : Option String) (hNs hDefault : Option String)
     (parentDefault : String) : St × Option QN × EBranch :=
   let nsLen0 := (nsAvt.getD "") = ""       -- namespaceLen == 0 (computed before any assignment)
+  -- `C14-element-empty-namespace.diff`: an empty namespace was requested, the prefix is dropped first
+  let name : QN := if s.v.emptyNsStrips && nsAvt = some "" then ⟨"", name.loc⟩ else name
   let havePrefix := name.pfx ≠ ""
   -- first block: resolve / strip the prefix
   let r : Option (QN × String × Bool) :=      -- (elemName, elemNameSpace, stripped)
